@@ -62,7 +62,9 @@ def _strict_args_factory(ctx, fi):
 
 def null_findings(ctx: Ctx, fi, rule: str, rep: RuleReport):
     cfg = ctx.cfg(fi)
-    nl = Nullness(fi.node, cfg)
+    # helpers of the same module that may hand back None count as MaybeNone sources (found by reading every helper, not listed by name)
+    from sa.engine.nullness import maybe_none_functions
+    nl = Nullness(fi.node, cfg, maybe_funcs=maybe_none_functions(ctx, fi.module.rel))
     strict = _strict_args_factory(ctx, fi)
     seen = set()
     n_sites = 0
